@@ -54,6 +54,11 @@ func genC14(r *Rng, tier string) *Plan {
 				// (openssl -conv_form compressed|hybrid)
 				fp.PubForm = Pick(r, []string{"compressed", "hybrid"})
 			}
+			if r.Chance(1, 5) {
+				// RFC 5958 form of the same structure (OneAsymmetricKey, version 1, public key attached):
+				// what newer tools write under the same PRIVATE KEY label; crypto/x509 and gopki read it
+				fp.V2 = true
+			}
 			if r.Chance(1, 6) {
 				// key and request for it in one file (a request-first workflow with the key appended later,
 				// or `cat key.pem req.pem`): the key is key material and stays
